@@ -63,6 +63,18 @@ theorem variables_walk_poly (d : Document) :
   refine ⟨tot, ht, Nat.le_trans hf (Nat.mul_le_mul hO hS), Nat.le_trans hn ?_⟩
   exact Nat.add_le_add_left (Nat.mul_le_mul hO (Nat.mul_le_mul_right _ hS)) _
 
+/-- **variables_walk_poly_tokens** — for every well-formed document (every document the parser returns,
+    `C06.parse_sound`) with `n` tokens: at most `n²` worklist entries and at most `4n + 4n³` callback calls. -/
+theorem variables_walk_poly_tokens (d : Document) (hwf : wfDocument d = true) :
+    ∃ tot, varsWalk d = some tot ∧ tot.frags ≤ d.stoks.length * d.stoks.length ∧
+      tot.nodes ≤ 4 * d.stoks.length + d.stoks.length * (d.stoks.length * (4 * d.stoks.length)) := by
+  obtain ⟨tot, ht, hf, hn⟩ := variables_walk_poly d
+  simp only [wfDocument, Bool.and_eq_true] at hwf
+  have hC : docCalls d.defs ≤ 4 * d.stoks.length := docCalls_le d.defs hwf.2
+  refine ⟨tot, ht, hf, Nat.le_trans hn ?_⟩
+  exact Nat.add_le_add hC (Nat.mul_le_mul_left _ (Nat.mul_le_mul_left _ hC))
+
+
 /-- The polynomial bounding the work of the overlapping-fields check of one selection set. -/
 def fieldsPoly (n : Nat) : Nat :=
   3 * ((2 * n + 4) * (2 * n + 4)) + 2 + (5 * ((2 * (2 * n + 4)) * (2 * (2 * n + 4))) + 4) * (n * n) + 1
